@@ -28,7 +28,9 @@ func init() { registerCases("C10", c10Case) }
 func c10Case(run *evid.Run, i int, j *Journal) {
 	rng := rand.New(rand.NewSource(run.Seed*5915587 + int64(i)))
 	h := hx.Gen(run.Seed, i, hx.GenOpts{MaxSteps: pick(run.Tier, 30, 50), Orders: []string{"default", "hash"}, MaxReplicas: 4,
+		Codecs: []string{[]string{"cbor", "cbor", "cbor", "link"}[i%4]}, // a same-key reader loads length-limited too
 		Shapes: []string{"mixed", "widefork", "diamond", "lopsided", "overlap", "ring"}})
+	run.Count("cases_codec_"+h.Codec, 1)
 	for k := range h.Steps {
 		if h.Steps[k].Op == "append" && rng.Intn(2) == 0 {
 			h.Steps[k].PC = []int{4, 16, 64}[rng.Intn(3)]
@@ -188,6 +190,24 @@ func c10Case(run *evid.Run, i int, j *Journal) {
 					if err != nil || loaded == nil {
 						run.Violate("C10/load-error", d, wit(), "loader failed: %v (%s)", err, desc)
 						continue
+					}
+					if nn != n {
+						// the load wrote to the limit the caller passed by pointer: a caller that keeps using its options
+						// value now loads with another limit than the one it set
+						run.Count("caller_limit_changed_by_load", 1)
+						if mh2, perr := l.ToMultihash(x.W.Ctx); perr == nil {
+							if l2, lerr := x.W.LoadManifest(mh2, 0, lo); lerr == nil && l2 != nil {
+								w2 := n
+								if len(src.Set) < w2 {
+									w2 = len(src.Set)
+								}
+								if l2.Len() != w2 {
+									run.Violate("C10/count", det("loader", "manifest", "n_class", nclass, "sequence", "same options value after a "+loader+" load"), wit(),
+										"the caller set a limit of %d; a %s load changed that variable to %d and the next load of the whole log through the same options returned %d entries instead of %d (%s)", n, loader, nn, l2.Len(), w2, desc)
+								}
+							}
+						}
+						nn = n
 					}
 					got := hx.Observe(loaded)
 					want := n
